@@ -486,6 +486,9 @@ func (r *runner) blockPub(s Seg) (refutes int, _ *h.Failure) {
 // transaction that was published with that version; then the model adopts the
 // call as what the watcher registered itself.
 func (r *runner) checkConcCall(op Op, c regCall, lo, hi [3]uint64, plocked map[uint64][]int) *h.Failure {
+	if c.req.Secondary {
+		return h.Failf("register-args:secondary", "after %v: the watcher's Register request (version %d) is marked secondary", op, c.req.Tx.Version)
+	}
 	if c.req.Tx.State == nil {
 		return h.Failf("register-args:parent-tx", "after %v: Register request without a state", op)
 	}
